@@ -68,6 +68,18 @@ def run(patch, checks=None, keep=False):
             res["demo_ok"] = res["demo_without_change"][0] == 0 and res["demo_with_change"][0] != 0
         env = dict(os.environ, VERIF_REPO=d, VERIF_OUT_DIR=out)
         res["checks"] = {}
+        seeds = [a.split("=", 1)[1].split() for a in sys.argv if a.startswith("--seeds=")]
+        if seeds:
+            # detection stability: the property's check once per seed
+            res["per_seed"] = {}
+            for c in checks:
+                for sd in seeds[0]:
+                    r = subprocess.run([os.path.join(VERIF, "run.py"), c, "--tier", tier, "--seed", sd], cwd=VERIF, capture_output=True, text=True, env=env)
+                    res["per_seed"]["%s/seed%s" % (c, sd)] = r.returncode
+            res["caught_by"] = sorted({k.split("/")[0] for k, v in res["per_seed"].items() if v == 1})
+            res["caught"] = bool(res["caught_by"])
+            res["stable"] = all(v == 1 for v in res["per_seed"].values())
+            return res
         for c in checks:
             t0 = time.time()
             r = subprocess.run([os.path.join(VERIF, "run.py"), c, "--tier", tier], cwd=VERIF, capture_output=True, text=True, env=env)
@@ -133,6 +145,9 @@ def main():
             inconc = [c for c, v in r.get("checks", {}).items() if v["exit"] == 2]
             print("BENIGN %s: tests=%s alarms=%s inconclusive=%s %s" % (r["patch"], r.get("baseline_tests"), alarms, inconc, r.get("error", "")))
         return 0
+    unstable = [r["patch"] for r in results if "stable" in r and not r["stable"]]
+    if any("stable" in r for r in results):
+        print("STABILITY: %d patches, %d detected under every seed, not under every seed: %s" % (len(results), len(results) - len(unstable), unstable))
     missed = [r["patch"] for r in results if not r.get("caught")]
     print("SUMMARY: %d patches, %d caught, missed: %s" % (len(results), len(results) - len(missed), missed))
     return 0
